@@ -118,3 +118,28 @@ package ice
 //@   props C09
 //@   opt nosafety
 //@   ensures a-never-started-candidate-closes-nothing: old(c.closeCh) == nil ==> result == nil && unchangedExcept()
+
+// Server-reflexive candidates on the shared srflx mux: the connection reference is
+// taken from the mux only after the STUN exchange succeeded, and is then closed once
+// or handed to a started candidate on every path.
+//@ func (*Agent).gatherCandidatesSrflxUDPMux$1
+//@   props C09
+//@   opt nosafety
+//@   ghostvar outstanding int = 0
+//@   site call GetConnForURL#1 ghost after outstanding := outstanding + ite(result1 == nil, 1, 0)
+//@   site call getXORMappedAddr#1 assert no-mux-reference-is-held-during-the-stun-exchange: outstanding == 0
+//@   site call closeConnAndLog#0 assert releases-the-reference-just-taken: arg0.payload == conn.payload && outstanding == 1
+//@   site call closeConnAndLog#0 ghost after outstanding := outstanding - ite(arg0 != nil && arg0.payload != nil, 1, 0)
+//@   site call addCandidate#1 assert hands-over-the-reference-just-taken: arg3.payload == conn.payload && outstanding == 1 && conn.gClosed == 0
+//@   site call addCandidate#1 ghost after outstanding := outstanding - ite(result == nil, 1, 0)
+//@   ensures every-mux-reference-is-closed-or-owned: outstanding == 0
+
+// A relay candidate releases its TURN allocation (client and local socket, through
+// onClose) whenever it is closed, whatever closing the relayed connection reported, and once.
+//@ func (*CandidateRelay).close
+//@   props C09
+//@   opt nosafety
+//@   ghostvar released int = 0
+//@   site call onClose#1 ghost released := released + 1
+//@   ensures the-relay-allocation-is-always-released-once: old(c.onClose) != nil ==> released == 1 && c.onClose == nil
+//@   ensures nothing-to-release-otherwise: old(c.onClose) == nil ==> released == 0
